@@ -1382,7 +1382,7 @@ Theorem C13_ListArray_getitem_next_array_advanced_spec :
   ListArray_getitem_next_array_advanced tocarry toadvanced starts stops fromarray fromadvanced lenstarts lenarray lencontent
   = KOk (filled 0 lenstarts (fun i => let a := at_ fromarray (at_ fromadvanced i) in
                                       at_ starts i + (if a <? 0 then a + (at_ stops i - at_ starts i) else a)) tocarry,
-         filled 0 lenstarts (fun i => i) toadvanced).
+         filled 0 lenstarts (fun i => at_ fromadvanced i) toadvanced).
 Proof. exact ListArray_getitem_next_array_advanced_spec. Qed.
 Print Assumptions C13_ListArray_getitem_next_array_advanced_spec.
 
@@ -1393,7 +1393,7 @@ Theorem C13_RegularArray_getitem_next_array_advanced_spec :
   (forall i, 0 <= i < length -> 0 <= at_ fromadvanced i < zlen fromarray) ->
   RegularArray_getitem_next_array_advanced tocarry toadvanced fromadvanced fromarray length lenarray size
   = KOk (filled 0 length (fun i => i * size + at_ fromarray (at_ fromadvanced i)) tocarry,
-         filled 0 length (fun i => i) toadvanced).
+         filled 0 length (fun i => at_ fromadvanced i) toadvanced).
 Proof. exact RegularArray_getitem_next_array_advanced_spec. Qed.
 Print Assumptions C13_RegularArray_getitem_next_array_advanced_spec.
 
